@@ -4,30 +4,53 @@
 //! Schedule cases: 2–4 real ObjectStoreMetadataClient instances, each over its
 //! own SchedStore handle on one InMemory store, race update_shard_metadata
 //! calls (creations and updates, equal / different / stale expected
-//! generations, all shard states) under a generated schedule at the
-//! granularity of single object-store requests.  Observed: the kind of every
-//! request (GET / PUT create|update, ok|conflict), every op result, every
-//! version of every shard object, get_shard_metadata from a fresh client at
-//! quiescence; the same ops sequentially on LocalMetadataClient.  The
-//! extracted Coq model (modelrun-c13) gets the executed schedule and must
-//! print the same canonical line.  Router cases: histories of update_routing /
-//! invalidate / invalidate_all / handle_shard_moved on a real ShardRouter.
+//! generations, all shard states; the `generation` FIELD of the record a caller
+//! passes is arbitrary — 0, stale, equal, far ahead — because it must be
+//! irrelevant) under a generated schedule at the granularity of single
+//! object-store requests.  Observed: the kind of every request, every op
+//! result, every version of every shard object, get_shard_metadata from a
+//! fresh client at quiescence; the same ops sequentially on
+//! LocalMetadataClient.  The extracted Coq model (modelrun-c13) gets the
+//! executed schedule and must print the same canonical line.
 //!
-//! Oracle (independent of the model): versions carry generations g0+1, g0+2, …;
-//! Ok results = versions (each version = an Ok op with expected = generation-1
-//! and that op's payload); at most one Ok per expected generation and at most
-//! one successful creation per shard; Stale{expected, actual} is truthful;
-//! nobody gets TooManyRetries; the final shard is the last version and equals
-//! the sequential replay of the successful ops on the in-memory backend; the
-//! router never lowers a cached generation on update_routing.
+//! Fault leg: schedule entries may carry Action::FailBefore / FailAfter, which
+//! makes that one request of that client fail with a transport error before /
+//! after it took effect, interleaved with the other clients' requests.  The
+//! theorems of Properties/C13.v do not speak about fault steps (CasProto has
+//! none); the model side of the comparison then runs Model/CasFault.v (a copy
+//! of the machine with fault labels, for this harness only) and the ORACLE
+//! below judges the implementation directly.  How faults are judged: an update
+//! that returns a transport error ("fault") has an indeterminate outcome (lost
+//! acknowledgement) — it may have written a version (only through its own PUT
+//! that was applied, i.e. a FailAfter PUT) or not; everything else is judged as
+//! without faults.
+//!
+//! Oracle (independent of the model, with and without faults):
+//!  * versions of a shard carry generations g0+1, g0+2, … (ladder);
+//!  * every version was written by the PUT of an update whose expected
+//!    generation is that generation - 1 and carries exactly that update's
+//!    payload; that update returned Ok, or "fault" with its PUT hit by FailAfter;
+//!  * every update that returned Ok wrote exactly one version through its OWN
+//!    PUT (successes ⊆ versions written by that client's own request);
+//!  * at most one Ok per (shard, base generation); at most one creation;
+//!  * Stale{expected, actual}: expected is the caller's, actual ≠ expected was
+//!    really stored; ShardNotFound only for an absent shard and expected ≠ 0;
+//!    "fault" only for an update that was hit by an injected fault; never
+//!    TooManyRetries or anything else;
+//!  * the final shard is the last version written and equals the one-at-a-time
+//!    replay of the written versions on the in-memory backend;
+//!  * in-memory backend: an update succeeds iff based on the stored generation
+//!    and then stores expected+1 with the payload, whatever generation field the
+//!    passed record carries;
+//!  * the router never lowers a cached generation on update_routing.
 use cardinalsin::metadata::{
     LocalMetadataClient, MetadataClient, ObjectStoreMetadataClient, ObjectStoreMetadataConfig,
 };
 use cardinalsin::sharding::{ShardKey, ShardMetadata, ShardRouter, ShardState};
 use cardinalsin::Error;
-use csv_cascommon::{all_sequences, drive};
-use csv_common::sched::Hub;
-use csv_common::{ddmin, Args, Model, Report, Rng};
+use csv_cascommon::{all_sequences, ddmin_capped, drive_faults, parse_step_token, step_token};
+use csv_common::sched::{Action, Hub};
+use csv_common::{Args, Model, Report, Rng};
 use futures::future::LocalBoxFuture;
 use futures::FutureExt;
 use object_store::memory::InMemory;
@@ -35,10 +58,13 @@ use object_store::path::Path;
 use object_store::ObjectStore;
 use serde_json::json;
 use std::collections::BTreeMap;
+use std::panic::AssertUnwindSafe;
 use std::sync::Arc;
 use std::time::Duration;
 
 const PREFIX: &str = "metadata/";
+const MAX_FINDINGS: usize = 10;
+const SHRINK_BUDGET: usize = 150;
 
 #[derive(Clone, Debug, PartialEq)]
 struct SOp {
@@ -46,6 +72,8 @@ struct SOp {
     expected: u64,
     st: u64,
     dt: u64,
+    /// the `generation` field of the record passed by the caller (must be irrelevant)
+    gf: u64,
 }
 
 #[derive(Clone, Debug, PartialEq)]
@@ -53,7 +81,7 @@ struct Case {
     /// shard objects existing before the run: sid -> (generation, st, dt)
     init: BTreeMap<u32, (u64, u64, u64)>,
     progs: Vec<Vec<SOp>>,
-    sched: Vec<usize>,
+    sched: Vec<(usize, Action)>,
 }
 
 fn sid_name(sid: u32) -> String {
@@ -105,22 +133,15 @@ fn res_string(r: &cardinalsin::Result<()>) -> String {
         Err(Error::ShardNotFound(_)) => "notfound".into(),
         Err(Error::TooManyRetries) => "retries".into(),
         Err(Error::Conflict) => "conflict".into(),
+        // transport errors: a failing GET surfaces as Metadata("Failed to load ..."), a failing PUT as ObjectStore
+        Err(Error::ObjectStore(_)) => "fault".into(),
+        Err(Error::Metadata(m)) if m.starts_with("Failed to load") => "fault".into(),
         Err(e) => format!("err({})", e).replace(['|', ';', '/', ','], "_"),
     }
 }
 
 fn ops_text(ops: &[SOp]) -> String {
     ops.iter().map(|o| format!("{}:{}:{}:{}", o.sid, o.expected, o.st, o.dt)).collect::<Vec<_>>().join(";")
-}
-
-fn parse_ops(t: &str) -> Vec<SOp> {
-    t.split(';')
-        .filter(|x| !x.trim().is_empty())
-        .map(|x| {
-            let f: Vec<u64> = x.trim().split(':').map(|y| y.parse().unwrap()).collect();
-            SOp { sid: f[0] as u32, expected: f[1], st: f[2], dt: f[3] }
-        })
-        .collect()
 }
 
 /// sequential history for the in-memory backend: the programs interleaved op by
@@ -141,40 +162,79 @@ fn local_history(c: &Case, executed: &[usize]) -> Vec<SOp> {
     h
 }
 
-async fn seeded_local(c: &Case) -> LocalMetadataClient {
+fn seedable(c: &Case) -> bool {
+    !c.init.values().any(|v| v.0 == 0 || v.0 > 6)
+}
+
+/// in-memory client holding the initial shards (built by real updates whose
+/// record carries the expected generation, so that seeding does not depend on
+/// how the generation field is treated); Err = seeding itself misbehaved
+async fn seeded_local(c: &Case) -> Result<LocalMetadataClient, String> {
     let local = LocalMetadataClient::new();
     for (sid, v) in &c.init {
         for g in 0..v.0 {
-            let m = make_meta(*sid, 0, v.1, v.2);
-            local.update_shard_metadata(&sid_name(*sid), &m, g).await.unwrap();
+            let m = make_meta(*sid, g, v.1, v.2);
+            if let Err(e) = local.update_shard_metadata(&sid_name(*sid), &m, g).await {
+                return Err(format!("in-memory backend: building generation {} of shard {} by successive updates failed at base generation {}: {}", v.0, sid, g, e));
+            }
+        }
+        let got = local.get_shard_metadata(&sid_name(*sid)).await.ok().flatten().and_then(|m| canon(&m));
+        if got != Some(*v) {
+            return Err(format!("in-memory backend: {} successive updates of shard {} (each based on the previous generation) left {:?} instead of generation {}", v.0, sid, got, v.0));
         }
     }
-    local
+    Ok(local)
 }
 
-fn encode(c: &Case, executed: &[usize]) -> String {
+fn encode(c: &Case, executed: &[(usize, Action)]) -> String {
     let init = c.init.iter().map(|(s, v)| format!("{}:{}:{}:{}", s, v.0, v.1, v.2)).collect::<Vec<_>>().join(",");
     let progs = c.progs.iter().map(|p| ops_text(p)).collect::<Vec<_>>().join("/");
-    let sched = executed.iter().map(|x| x.to_string()).collect::<Vec<_>>().join(",");
+    let sched = executed.iter().map(|(c, a)| step_token(*c, *a)).collect::<Vec<_>>().join(",");
+    let ex: Vec<usize> = executed.iter().map(|x| x.0).collect();
     // the in-memory backend cannot be seeded with generation 0, so no local part then
-    let local = if c.init.values().any(|v| v.0 == 0 || v.0 > 6) { String::new() } else { ops_text(&local_history(c, executed)) };
-    format!("S|init={}|progs={}|sched={}|local={}", init, progs, sched, local)
+    let local = if seedable(c) { ops_text(&local_history(c, &ex)) } else { String::new() };
+    // generation fields of the passed records: ignored by the model (the code must ignore them too)
+    let gf = c.progs.iter().map(|p| p.iter().map(|o| o.gf.to_string()).collect::<Vec<_>>().join(";")).collect::<Vec<_>>().join("/");
+    format!("S|init={}|progs={}|sched={}|local={}|gf={}", init, progs, sched, local, gf)
 }
 
 fn decode(line: &str) -> Case {
     let mut init = BTreeMap::new();
-    let mut progs = Vec::new();
+    let mut progs: Vec<Vec<SOp>> = Vec::new();
     let mut sched = Vec::new();
+    let mut gfs: Vec<Vec<u64>> = Vec::new();
     for f in line.split('|') {
         if let Some(v) = f.strip_prefix("init=") {
             for t in v.split(',').filter(|x| !x.is_empty()) {
-                let a: Vec<u64> = t.split(':').map(|y| y.parse().unwrap()).collect();
-                init.insert(a[0] as u32, (a[1], a[2], a[3]));
+                let a: Vec<u64> = t.split(':').map(|y| y.parse().unwrap_or(0)).collect();
+                if a.len() == 4 {
+                    init.insert(a[0] as u32, (a[1], a[2], a[3]));
+                }
             }
         } else if let Some(v) = f.strip_prefix("progs=") {
-            progs = v.split('/').map(parse_ops).collect();
+            progs = v
+                .split('/')
+                .map(|p| {
+                    p.split(';')
+                        .filter(|x| !x.trim().is_empty())
+                        .map(|x| {
+                            let f: Vec<u64> = x.trim().split(':').map(|y| y.parse().unwrap_or(0)).collect();
+                            SOp { sid: f[0] as u32, expected: f[1], st: f[2], dt: f[3], gf: f[1] }
+                        })
+                        .collect()
+                })
+                .collect();
         } else if let Some(v) = f.strip_prefix("sched=") {
-            sched = v.split(',').filter(|x| !x.is_empty()).map(|x| x.parse().unwrap()).collect();
+            sched = v.split(',').filter(|x| !x.is_empty()).map(parse_step_token).collect();
+        } else if let Some(v) = f.strip_prefix("gf=") {
+            gfs = v.split('/').map(|p| p.split(';').filter(|x| !x.is_empty()).map(|x| x.parse().unwrap_or(0)).collect()).collect();
+        }
+    }
+    for (k, p) in progs.iter_mut().enumerate() {
+        for (i, o) in p.iter_mut().enumerate() {
+            if let Some(g) = gfs.get(k).and_then(|v| v.get(i)) {
+                o.gf = *g;
+            }
         }
     }
     Case { init, progs, sched }
@@ -182,19 +242,31 @@ fn decode(line: &str) -> Case {
 
 struct ImplOut {
     line: String,
-    executed: Vec<usize>,
+    executed: Vec<(usize, Action)>,
     bad: Vec<String>,
     conflicts: usize,
+    faults: usize,
 }
 
 fn shard_path(sid: u32) -> Path {
     Path::from_iter([PREFIX, "shards/", &format!("{}.json", sid_name(sid))])
 }
 
+/// Runs one case; a panic of the implementation or of this harness is caught
+/// and reported as an oracle failure of that case.
 fn run_impl(c: &Case) -> ImplOut {
-    let rt = tokio::runtime::Builder::new_current_thread().enable_all().start_paused(true).build().unwrap();
-    let local_set = tokio::task::LocalSet::new();
-    rt.block_on(local_set.run_until(run_impl_async(c)))
+    let r = std::panic::catch_unwind(AssertUnwindSafe(|| {
+        let rt = tokio::runtime::Builder::new_current_thread().enable_all().start_paused(true).build().unwrap();
+        let local_set = tokio::task::LocalSet::new();
+        rt.block_on(local_set.run_until(run_impl_async(c)))
+    }));
+    match r {
+        Ok(o) => o,
+        Err(e) => {
+            let msg = e.downcast_ref::<&str>().map(|s| s.to_string()).or_else(|| e.downcast_ref::<String>().cloned()).unwrap_or_else(|| "panic".into());
+            ImplOut { line: "PANIC".into(), executed: c.sched.clone(), bad: vec![format!("panic while running the case: {}", msg)], conflicts: 0, faults: 0 }
+        }
+    }
 }
 
 async fn run_impl_async(c: &Case) -> ImplOut {
@@ -209,8 +281,10 @@ async fn run_impl_async(c: &Case) -> ImplOut {
     // seed the initial shard objects directly
     for (sid, v) in &c.init {
         let m = make_meta(*sid, v.0, v.1, v.2);
-        let bytes = serde_json::to_vec_pretty(&m).unwrap();
-        store.put(&shard_path(*sid), bytes.into()).await.unwrap();
+        let bytes = serde_json::to_vec_pretty(&m).unwrap_or_default();
+        if let Err(e) = store.put(&shard_path(*sid), bytes.into()).await {
+            bad.push(format!("harness: cannot seed shard {}: {}", sid, e));
+        }
     }
     let hub = Hub::new(store.clone());
     hub.watch("shards");
@@ -218,7 +292,9 @@ async fn run_impl_async(c: &Case) -> ImplOut {
         let probe = ObjectStoreMetadataClient::new(hub.client(98), cfg.clone());
         for (sid, v) in &c.init {
             let got = probe.get_shard_metadata(&sid_name(*sid)).await.ok().flatten().and_then(|m| canon(&m));
-            assert_eq!(got, Some(*v), "harness: seeded shard not visible through the client");
+            if got != Some(*v) {
+                bad.push(format!("seeded shard {} = {:?} is read back as {:?} by get_shard_metadata", sid, v, got));
+            }
         }
     }
     let n = c.progs.len();
@@ -229,9 +305,8 @@ async fn run_impl_async(c: &Case) -> ImplOut {
         let hub2 = hub.clone();
         tasks.push(
             async move {
-                for (i, o) in ops.iter().enumerate() {
-                    // the generation field of the argument must be ignored by the code
-                    let m = make_meta(o.sid, 1000 + i as u64 * 7 + k as u64, o.st, o.dt);
+                for o in ops.iter() {
+                    let m = make_meta(o.sid, o.gf, o.st, o.dt);
                     let r = client.update_shard_metadata(&sid_name(o.sid), &m, o.expected).await;
                     hub2.note(k, format!("done:{}", res_string(&r)));
                 }
@@ -240,11 +315,14 @@ async fn run_impl_async(c: &Case) -> ImplOut {
         );
     }
     let nops: Vec<usize> = c.progs.iter().map(|p| p.len()).collect();
-    let run = drive(&hub, tasks, &nops, &c.sched, 400).await;
+    let run = drive_faults(&hub, tasks, &nops, &c.sched, 400).await;
     if let Some(s) = &run.stuck {
         bad.push(format!("run did not complete: {}", s));
     }
     let conflicts = run.kinds.iter().filter(|k| k.ends_with('-')).count();
+    let faults = run.actions.iter().filter(|a| **a != Action::Proceed).count();
+    let op_of_step = run.op_of_step();
+    let executed: Vec<(usize, Action)> = run.executed.iter().cloned().zip(run.actions.iter().cloned()).collect();
 
     // sids in play
     let mut sids: Vec<u32> = c.init.keys().cloned().collect();
@@ -255,23 +333,39 @@ async fn run_impl_async(c: &Case) -> ImplOut {
     }
     sids.sort();
     sids.dedup();
+    let file_of = |sid: u32| format!("{}.json", sid_name(sid));
 
-    // versions written, per shard object
+    // versions written, per shard object, with the (client, op index, step) whose PUT wrote them
     let all_versions = hub.versions.lock().unwrap().clone();
     let mut vers: BTreeMap<u32, Vec<(u64, u64, u64)>> = BTreeMap::new();
+    let mut writers: BTreeMap<u32, Vec<(usize, usize, usize)>> = BTreeMap::new();
     for sid in &sids {
         let mut v = Vec::new();
         for (path, vs) in &all_versions {
-            if path.ends_with(&format!("{}.json", sid_name(*sid))) {
+            if path.ends_with(&file_of(*sid)) {
                 for b in vs {
                     match b.as_ref().and_then(|b| serde_json::from_slice::<ShardMetadata>(b).ok()).and_then(|m| canon(&m)) {
                         Some(x) => v.push(x),
-                        None => bad.push(format!("shard {}: a stored version is not what any caller supplied (or a delete)", sid)),
+                        None => {
+                            bad.push(format!("shard {}: a stored version is not what any caller supplied (or a delete)", sid));
+                            v.push((u64::MAX, 0, 0));
+                        }
                     }
                 }
             }
         }
+        let w: Vec<(usize, usize, usize)> = run
+            .log
+            .iter()
+            .enumerate()
+            .filter(|(_, e)| e.info.verb == "PUT" && e.ok && e.info.path.ends_with(&file_of(*sid)))
+            .map(|(s, e)| (e.info.client, op_of_step.get(s).cloned().unwrap_or(usize::MAX), s))
+            .collect();
+        if w.len() != v.len() {
+            bad.push(format!("shard {}: {} versions recorded but {} applied PUTs logged", sid, v.len(), w.len()));
+        }
         vers.insert(*sid, v);
+        writers.insert(*sid, w);
     }
     // final state through a fresh client
     let fresh = ObjectStoreMetadataClient::new(hub.client(99), cfg.clone());
@@ -287,26 +381,52 @@ async fn run_impl_async(c: &Case) -> ImplOut {
         };
         finals.insert(*sid, f);
     }
+    let result_of = |k: usize, i: usize| run.results.get(k).and_then(|r| r.get(i)).cloned().unwrap_or_else(|| "missing".into());
+    // was the op (k, i) hit by an injected fault / by a FailAfter on an applied PUT?
+    let op_faulted = |k: usize, i: usize| (0..run.executed.len()).any(|s| run.executed[s] == k && op_of_step[s] == i && run.actions[s] != Action::Proceed);
 
     // ---------------- oracle ----------------
     for sid in &sids {
         let v = &vers[sid];
+        let w = &writers[sid];
         let g0 = c.init.get(sid).map(|x| x.0).unwrap_or(0);
         for (i, x) in v.iter().enumerate() {
             if x.0 != g0 + 1 + i as u64 {
                 bad.push(format!("shard {}: version {} has generation {} (expected {}): generations must rise by exactly one", sid, i, x.0, g0 + 1 + i as u64));
             }
         }
-        // Ok ops on this shard
-        let mut oks: Vec<(u64, u64, u64)> = Vec::new();
+        // every version: written by the PUT of an update with expected = generation - 1 and that payload,
+        // which reported Ok (or a transport error although its PUT was applied)
+        for (j, x) in v.iter().enumerate() {
+            let Some(&(k, i, s)) = w.get(j) else { continue };
+            match c.progs.get(k).and_then(|p| p.get(i)) {
+                Some(o) => {
+                    if o.sid != *sid || o.expected.wrapping_add(1) != x.0 || o.st != x.1 || o.dt != x.2 {
+                        bad.push(format!("shard {}: stored version {} was written by client {} op {} (expected generation {}, payload {}.{}): not expected+1 with the caller's payload", sid, show3(*x), k, i, o.expected, o.st, o.dt));
+                    }
+                    let r = result_of(k, i);
+                    let lost_ack = r == "fault" && run.actions[s] == Action::FailAfter;
+                    if r != "ok" && !lost_ack {
+                        bad.push(format!("shard {}: client {} op {} returned {} but its PUT stored version {}: a rejected update had an effect", sid, k, i, r, show3(*x)));
+                    }
+                }
+                None => bad.push(format!("shard {}: version {} written by an unknown operation", sid, show3(*x))),
+            }
+        }
+        // results
+        let mut oks: Vec<(u64, usize, usize)> = Vec::new();
         for (k, p) in c.progs.iter().enumerate() {
             for (i, o) in p.iter().enumerate() {
                 if o.sid != *sid {
                     continue;
                 }
-                let r = run.results.get(k).and_then(|r| r.get(i)).cloned().unwrap_or_else(|| "missing".into());
+                let r = result_of(k, i);
                 if r == "ok" {
-                    oks.push((o.expected, o.st, o.dt));
+                    oks.push((o.expected, k, i));
+                    let own = w.iter().filter(|(wk, wi, _)| *wk == k && *wi == i).count();
+                    if own != 1 {
+                        bad.push(format!("shard {}: client {} op {} (based on generation {}) reported success but {} versions were written by its own PUT", sid, k, i, o.expected, own));
+                    }
                 } else if let Some(rest) = r.strip_prefix("stale.") {
                     let f: Vec<u64> = rest.split('.').map(|y| y.parse().unwrap_or(u64::MAX)).collect();
                     let existed = f[1] == g0 && c.init.contains_key(sid) || v.iter().any(|x| x.0 == f[1]);
@@ -317,32 +437,26 @@ async fn run_impl_async(c: &Case) -> ImplOut {
                     if c.init.contains_key(sid) || o.expected == 0 {
                         bad.push(format!("shard {}: client {} op {} got ShardNotFound (expected={}, existed initially: {})", sid, k, i, o.expected, c.init.contains_key(sid)));
                     }
+                } else if r == "fault" {
+                    if !op_faulted(k, i) {
+                        bad.push(format!("shard {}: client {} op {} returned a transport error although no fault was injected into it", sid, k, i));
+                    }
                 } else {
                     bad.push(format!("shard {}: client {} op {} ended with {}", sid, k, i, r));
                 }
             }
-        }
-        if oks.len() != v.len() {
-            bad.push(format!("shard {}: {} updates reported success but {} versions were written", sid, oks.len(), v.len()));
         }
         let mut exp: Vec<u64> = oks.iter().map(|x| x.0).collect();
         exp.sort();
         let before = exp.len();
         exp.dedup();
         if exp.len() != before {
-            bad.push(format!("shard {}: two updates based on the same generation both succeeded: {:?}", sid, oks));
+            bad.push(format!("shard {}: two updates based on the same generation both succeeded: (base generation, client, op) = {:?}", sid, oks));
         }
-        // every version = one Ok op with expected = generation - 1 and that op's payload
-        let mut pool = oks.clone();
-        for x in v {
-            match pool.iter().position(|o| o.0 + 1 == x.0 && o.1 == x.1 && o.2 == x.2) {
-                Some(i) => {
-                    pool.remove(i);
-                }
-                None => bad.push(format!("shard {}: stored version {} is not expected+1 / payload of any successful update {:?}", sid, show3(*x), oks)),
-            }
+        if faults == 0 && oks.len() != v.len() {
+            bad.push(format!("shard {}: {} updates reported success but {} versions were written", sid, oks.len(), v.len()));
         }
-        let creates = run.log.iter().filter(|e| e.info.verb == "PUT" && e.info.mode == "create" && e.ok && e.info.path.ends_with(&format!("{}.json", sid_name(*sid)))).count();
+        let creates = run.log.iter().filter(|e| e.info.verb == "PUT" && e.info.mode == "create" && e.ok && e.info.path.ends_with(&file_of(*sid))).count();
         if creates > 1 || (creates == 1 && c.init.contains_key(sid)) {
             bad.push(format!("shard {}: {} successful creations (existed initially: {})", sid, creates, c.init.contains_key(sid)));
         }
@@ -353,55 +467,64 @@ async fn run_impl_async(c: &Case) -> ImplOut {
     }
 
     // ---------------- in-memory backend ----------------
-    let seedable = !c.init.values().any(|v| v.0 == 0 || v.0 > 6);
     let mut lres: Vec<String> = Vec::new();
     let mut lfinal: BTreeMap<u32, Option<(u64, u64, u64)>> = BTreeMap::new();
-    if seedable {
-        let local = seeded_local(c).await;
-        // oracle for the in-memory backend: an update succeeds iff it is based on the stored
-        // generation (absent = 0 for a creation) and then stores exactly expected + 1
-        let mut ref_gen: BTreeMap<u32, Option<u64>> = sids.iter().map(|s| (*s, c.init.get(s).map(|v| v.0))).collect();
-        for (i, o) in local_history(c, &run.executed).iter().enumerate() {
-            let m = make_meta(o.sid, 77, o.st, o.dt);
-            let r = local.update_shard_metadata(&sid_name(o.sid), &m, o.expected).await;
-            let rs = res_string(&r);
-            let cur = ref_gen[&o.sid];
-            let want = match cur {
-                Some(g) if g == o.expected => "ok".to_string(),
-                Some(g) => format!("stale.{}.{}", o.expected, g),
-                None if o.expected == 0 => "ok".to_string(),
-                None => "notfound".to_string(),
-            };
-            if rs != want {
-                bad.push(format!("in-memory backend: update {} of shard {} with expected generation {} over stored generation {:?} returned {} (must be {})", i, o.sid, o.expected, cur, rs, want));
-            }
-            if rs == "ok" {
-                ref_gen.insert(o.sid, Some(o.expected + 1));
-                let got = local.get_shard_metadata(&sid_name(o.sid)).await.ok().flatten().and_then(|m| canon(&m));
-                if got != Some((o.expected + 1, o.st, o.dt)) {
-                    bad.push(format!("in-memory backend: after a successful update based on generation {} the shard is {:?}", o.expected, got));
+    let mut local_ok = false;
+    if seedable(c) {
+        match seeded_local(c).await {
+            Err(e) => bad.push(e),
+            Ok(local) => {
+                local_ok = true;
+                // oracle: an update succeeds iff it is based on the stored generation (absent = 0 for a
+                // creation) and then stores exactly expected + 1, whatever the record's own field says
+                let mut ref_gen: BTreeMap<u32, Option<u64>> = sids.iter().map(|s| (*s, c.init.get(s).map(|v| v.0))).collect();
+                for (i, o) in local_history(c, &run.executed).iter().enumerate() {
+                    let m = make_meta(o.sid, o.gf, o.st, o.dt);
+                    let r = local.update_shard_metadata(&sid_name(o.sid), &m, o.expected).await;
+                    let rs = res_string(&r);
+                    let cur = ref_gen[&o.sid];
+                    let want = match cur {
+                        Some(g) if g == o.expected => "ok".to_string(),
+                        Some(g) => format!("stale.{}.{}", o.expected, g),
+                        None if o.expected == 0 => "ok".to_string(),
+                        None => "notfound".to_string(),
+                    };
+                    if rs != want {
+                        bad.push(format!("in-memory backend: update {} of shard {} with expected generation {} (record field {}) over stored generation {:?} returned {} (must be {})", i, o.sid, o.expected, o.gf, cur, rs, want));
+                    }
+                    if rs == "ok" {
+                        let got = local.get_shard_metadata(&sid_name(o.sid)).await.ok().flatten().and_then(|m| canon(&m));
+                        if got != Some((o.expected + 1, o.st, o.dt)) {
+                            bad.push(format!("in-memory backend: after a successful update based on generation {} (record field {}) the shard is {:?}, not generation {}", o.expected, o.gf, got, o.expected + 1));
+                        }
+                        ref_gen.insert(o.sid, got.map(|g| g.0));
+                    }
+                    lres.push(rs);
+                }
+                for sid in &sids {
+                    lfinal.insert(*sid, local.get_shard_metadata(&sid_name(*sid)).await.ok().flatten().and_then(|m| canon(&m)));
                 }
             }
-            lres.push(rs);
         }
-        for sid in &sids {
-            lfinal.insert(*sid, local.get_shard_metadata(&sid_name(*sid)).await.ok().flatten().and_then(|m| canon(&m)));
-        }
-        // oracle: sequential replay of the successful updates in commit order gives the same shard
-        let local2 = seeded_local(c).await;
-        for sid in &sids {
-            for x in &vers[sid] {
-                let m = make_meta(*sid, 5, x.1, x.2);
-                if let Err(e) = local2.update_shard_metadata(&sid_name(*sid), &m, x.0.wrapping_sub(1)).await {
-                    bad.push(format!("shard {}: replaying the successful updates one at a time fails at generation {}: {}", sid, x.0, e));
+        // oracle: sequential replay of the written versions, in order, gives the same shard
+        if let Ok(local2) = seeded_local(c).await {
+            for sid in &sids {
+                for x in &vers[sid] {
+                    let m = make_meta(*sid, x.0.wrapping_sub(1), x.1, x.2);
+                    if let Err(e) = local2.update_shard_metadata(&sid_name(*sid), &m, x.0.wrapping_sub(1)).await {
+                        bad.push(format!("shard {}: replaying the written versions one at a time fails at generation {}: {}", sid, x.0, e));
+                        break;
+                    }
+                }
+                let f = local2.get_shard_metadata(&sid_name(*sid)).await.ok().flatten().and_then(|m| canon(&m));
+                if f != finals[sid] {
+                    bad.push(format!("shard {}: final state {:?} differs from the one-at-a-time replay {:?}", sid, finals[sid], f));
                 }
             }
-            let f = local2.get_shard_metadata(&sid_name(*sid)).await.ok().flatten().and_then(|m| canon(&m));
-            if f != finals[sid] {
-                bad.push(format!("shard {}: final state {:?} differs from the one-at-a-time replay {:?}", sid, finals[sid], f));
-            }
         }
-    } else {
+    }
+    if !local_ok {
+        lres.clear();
         for sid in &sids {
             lfinal.insert(*sid, c.init.get(sid).cloned());
         }
@@ -411,10 +534,10 @@ async fn run_impl_async(c: &Case) -> ImplOut {
     let res = (0..n).map(|k| run.results[k].join(";")).collect::<Vec<_>>().join("/");
     let versl = sids.iter().map(|s| format!("{}={}", s, vers[s].iter().map(|x| show3(*x)).collect::<Vec<_>>().join(","))).collect::<Vec<_>>().join(";");
     let fin = |m: &BTreeMap<u32, Option<(u64, u64, u64)>>| {
-        sids.iter().map(|s| format!("{}={}", s, m[s].map(show3).unwrap_or_else(|| "none".into()))).collect::<Vec<_>>().join(";")
+        sids.iter().map(|s| format!("{}={}", s, m.get(s).cloned().flatten().map(show3).unwrap_or_else(|| "none".into()))).collect::<Vec<_>>().join(";")
     };
     let line = format!("steps={}|res={}|vers={}|final={}|lres={}|lfinal={}", steps, res, versl, fin(&finals), lres.join(";"), fin(&lfinal));
-    ImplOut { line, executed: run.executed, bad, conflicts }
+    ImplOut { line, executed, bad, conflicts, faults }
 }
 
 // ------------------------------------------------------------- router ----
@@ -424,13 +547,18 @@ fn router_key(id: u32) -> ShardKey {
 
 /// ops: U id gen data | I id | A | M id nid ngen ndata | Q id
 fn run_router(ops: &[String]) -> (String, Vec<String>) {
+    let r = std::panic::catch_unwind(AssertUnwindSafe(|| run_router_inner(ops)));
+    r.unwrap_or_else(|_| ("PANIC".into(), vec!["panic in the router history".into()]))
+}
+
+fn run_router_inner(ops: &[String]) -> (String, Vec<String>) {
     let router = ShardRouter::new(Duration::from_secs(3600));
     let mut outs = Vec::new();
     let mut bad = Vec::new();
     let cached = |r: &ShardRouter, id: u32| r.get_shard(&router_key(id)).map(|m| (m.generation, m.min_time as u64));
     for (i, op) in ops.iter().enumerate() {
         let f: Vec<&str> = op.split(' ').collect();
-        let num = |j: usize| -> u64 { f[j].parse().unwrap() };
+        let num = |j: usize| -> u64 { f.get(j).and_then(|x| x.parse().ok()).unwrap_or(0) };
         match f[0] {
             "U" => {
                 let id = num(1) as u32;
@@ -475,7 +603,21 @@ fn gen_router(rng: &mut Rng) -> Vec<String> {
 }
 
 // ---------------------------------------------------------- generators ----
-fn gen_case(rng: &mut Rng, report: &mut Report) -> Case {
+/// generation field of the record passed by the caller: equal to the expected
+/// generation, 0, stale, one ahead, far ahead, arbitrary
+fn gen_gf(rng: &mut Rng, expected: u64) -> u64 {
+    match rng.below(8) {
+        0 | 1 => expected,
+        2 => 0,
+        3 => expected.saturating_sub(1),
+        4 => expected + 1,
+        5 => expected + 41,
+        6 => 1_000_000 + rng.below(1000),
+        _ => rng.below(6),
+    }
+}
+
+fn gen_case(rng: &mut Rng, report: &mut Report, with_faults: bool) -> Case {
     let n = rng.range_usize(2, 4);
     let mut init = BTreeMap::new();
     let two_shards = rng.chance(1, 5);
@@ -517,13 +659,13 @@ fn gen_case(rng: &mut Rng, report: &mut Report) -> Case {
                 _ => g0 + 5,
             };
             uniq += 1;
-            p.push(SOp { sid, expected, st: rng.below(3), dt: uniq });
+            p.push(SOp { sid, expected, st: rng.below(3), dt: uniq, gf: gen_gf(rng, expected) });
         }
         progs.push(p);
     }
     let total: usize = progs.iter().map(|p| p.len()).sum();
     let len = rng.range_usize(0, total * 4);
-    let sched: Vec<usize> = match rng.below(4) {
+    let clients: Vec<usize> = match rng.below(4) {
         0 => (0..len).map(|i| i % n).collect(), // round robin: all GETs, then all PUTs
         1 => {
             // blocks
@@ -538,35 +680,60 @@ fn gen_case(rng: &mut Rng, report: &mut Report) -> Case {
         }
         _ => (0..len).map(|_| rng.below(n as u64) as usize).collect(),
     };
+    let sched = clients
+        .into_iter()
+        .map(|c| {
+            let a = if with_faults && rng.chance(1, 5) { if rng.chance(1, 2) { Action::FailBefore } else { Action::FailAfter } } else { Action::Proceed };
+            (c, a)
+        })
+        .collect();
     Case { init, progs, sched }
+}
+
+fn p(cs: &[usize]) -> Vec<(usize, Action)> {
+    cs.iter().map(|c| (*c, Action::Proceed)).collect()
 }
 
 /// proof-derived corner cases, always run first
 fn corpus() -> Vec<Case> {
-    let op = |sid, expected, st, dt| SOp { sid, expected, st, dt };
+    let op = |sid, expected, st, dt| SOp { sid, expected, st, dt, gf: expected };
+    let opg = |sid, expected, st, dt, gf| SOp { sid, expected, st, dt, gf };
     let mut v = Vec::new();
     // creation race GET,GET,PUT,PUT: one creator wins, the loser reloads and is told stale 0 -> 1
-    v.push(Case { init: BTreeMap::new(), progs: vec![vec![op(0, 0, 0, 1)], vec![op(0, 0, 1, 2)]], sched: vec![0, 1, 0, 1] });
-    v.push(Case { init: BTreeMap::new(), progs: vec![vec![op(0, 0, 0, 1)], vec![op(0, 0, 1, 2)]], sched: vec![0, 1, 1, 0] });
+    v.push(Case { init: BTreeMap::new(), progs: vec![vec![op(0, 0, 0, 1)], vec![op(0, 0, 1, 2)]], sched: p(&[0, 1, 0, 1]) });
+    v.push(Case { init: BTreeMap::new(), progs: vec![vec![op(0, 0, 0, 1)], vec![op(0, 0, 1, 2)]], sched: p(&[0, 1, 1, 0]) });
     // update race on the same generation
     let mut i1 = BTreeMap::new();
     i1.insert(0, (1, 0, 9));
-    v.push(Case { init: i1.clone(), progs: vec![vec![op(0, 1, 1, 1)], vec![op(0, 1, 2, 2)], vec![op(0, 1, 0, 3)]], sched: vec![0, 1, 2, 2, 1, 0] });
+    v.push(Case { init: i1.clone(), progs: vec![vec![op(0, 1, 1, 1)], vec![op(0, 1, 2, 2)], vec![op(0, 1, 0, 3)]], sched: p(&[0, 1, 2, 2, 1, 0]) });
     // a stale writer parked before its PUT while two newer generations are written
-    v.push(Case { init: i1.clone(), progs: vec![vec![op(0, 1, 1, 1)], vec![op(0, 1, 2, 2), op(0, 2, 0, 3)]], sched: vec![0, 1, 1, 1, 1, 0, 0] });
+    v.push(Case { init: i1.clone(), progs: vec![vec![op(0, 1, 1, 1)], vec![op(0, 1, 2, 2), op(0, 2, 0, 3)]], sched: p(&[0, 1, 1, 1, 1, 0, 0]) });
     // update of a missing shard, creation with a stale expectation, generation 0 stored
-    v.push(Case { init: BTreeMap::new(), progs: vec![vec![op(0, 3, 0, 1), op(0, 0, 0, 2), op(0, 0, 0, 3)], vec![op(0, 1, 1, 4)]], sched: vec![0, 0, 1, 0, 1] });
+    v.push(Case { init: BTreeMap::new(), progs: vec![vec![op(0, 3, 0, 1), op(0, 0, 0, 2), op(0, 0, 0, 3)], vec![op(0, 1, 1, 4)]], sched: p(&[0, 0, 1, 0, 1]) });
     let mut i0 = BTreeMap::new();
     i0.insert(0, (0, 0, 9));
-    v.push(Case { init: i0, progs: vec![vec![op(0, 0, 1, 1)], vec![op(0, 0, 2, 2)]], sched: vec![0, 1, 0, 1] });
+    v.push(Case { init: i0, progs: vec![vec![op(0, 0, 1, 1)], vec![op(0, 0, 2, 2)]], sched: p(&[0, 1, 0, 1]) });
     // two shard objects do not interfere
-    v.push(Case { init: BTreeMap::new(), progs: vec![vec![op(0, 0, 0, 1), op(1, 0, 0, 2)], vec![op(1, 0, 1, 3), op(0, 0, 1, 4)]], sched: vec![0, 1, 0, 1, 0, 1, 0, 1] });
+    v.push(Case { init: BTreeMap::new(), progs: vec![vec![op(0, 0, 0, 1), op(1, 0, 0, 2)], vec![op(1, 0, 1, 3), op(0, 0, 1, 4)]], sched: p(&[0, 1, 0, 1, 0, 1, 0, 1]) });
+    // the generation field of the passed record is irrelevant: create; W updates based on 1 passing a record
+    // with field 0 (resp. 41); S updates based on 1 and must be rejected as stale 1 -> 2
+    v.push(Case { init: BTreeMap::new(), progs: vec![vec![opg(0, 0, 0, 1, 7), opg(0, 1, 1, 2, 0)], vec![opg(0, 1, 2, 3, 1)]], sched: p(&[0, 0, 0, 0, 1, 1]) });
+    v.push(Case { init: BTreeMap::new(), progs: vec![vec![opg(0, 0, 0, 1, 0), opg(0, 1, 1, 2, 41)], vec![opg(0, 1, 2, 3, 0), opg(0, 2, 0, 4, 0)]], sched: p(&[0, 0, 0, 0, 1, 1, 1, 1]) });
+    // faults: A's PUT fails without being applied while B's update on the same base lands, then A goes on;
+    // and the lost acknowledgement: A's PUT is applied but reported as failed, B must be told stale
+    for a in [Action::FailBefore, Action::FailAfter] {
+        v.push(Case { init: i1.clone(), progs: vec![vec![op(0, 1, 1, 1)], vec![op(0, 1, 2, 2)]], sched: vec![(0, Action::Proceed), (1, Action::Proceed), (0, a), (1, Action::Proceed), (0, Action::Proceed), (1, Action::Proceed)] });
+        v.push(Case { init: BTreeMap::new(), progs: vec![vec![op(0, 0, 1, 1), op(0, 1, 1, 5)], vec![op(0, 0, 2, 2)]], sched: vec![(0, Action::Proceed), (1, Action::Proceed), (0, a), (1, Action::Proceed), (0, Action::Proceed), (1, Action::Proceed)] });
+    }
+    // a failing GET ends the update with an error and nothing written
+    v.push(Case { init: i1, progs: vec![vec![op(0, 1, 1, 1)], vec![op(0, 1, 2, 2)]], sched: vec![(0, Action::FailBefore), (1, Action::Proceed), (1, Action::FailAfter)] });
     v
 }
 
-fn exhaustive_cases() -> Vec<Case> {
+fn exhaustive_cases(with_faults: bool) -> Vec<Case> {
     // 2 clients x 1 op each, every pair of expected generations in {0,1,2}, shard absent or at generation 1,
-    // every schedule prefix of length 6 (the drain completes it): all interleavings of two load/PUT/reload sequences
+    // every schedule prefix of length 6 (the drain completes it): all interleavings of two load/PUT/reload
+    // sequences.  With faults: additionally every position x {FailBefore, FailAfter} of ONE injected fault.
     let mut v = Vec::new();
     let seqs = all_sequences(2, 6);
     for init_present in [false, true] {
@@ -577,11 +744,22 @@ fn exhaustive_cases() -> Vec<Case> {
                     if init_present {
                         init.insert(0, (1, 0, 9));
                     }
-                    v.push(Case {
-                        init,
-                        progs: vec![vec![SOp { sid: 0, expected: e0, st: 1, dt: 1 }], vec![SOp { sid: 0, expected: e1, st: 2, dt: 2 }]],
-                        sched: s.clone(),
-                    });
+                    let progs = vec![vec![SOp { sid: 0, expected: e0, st: 1, dt: 1, gf: 40 + e0 }], vec![SOp { sid: 0, expected: e1, st: 2, dt: 2, gf: 0 }]];
+                    if !with_faults {
+                        v.push(Case { init, progs, sched: p(s) });
+                    } else {
+                        // only races on a common base are interesting under faults
+                        if e0 != e1 {
+                            continue;
+                        }
+                        for pos in 0..s.len() {
+                            for a in [Action::FailBefore, Action::FailAfter] {
+                                let mut sched = p(s);
+                                sched[pos].1 = a;
+                                v.push(Case { init: init.clone(), progs: progs.clone(), sched });
+                            }
+                        }
+                    }
                 }
             }
         }
@@ -589,59 +767,60 @@ fn exhaustive_cases() -> Vec<Case> {
     v
 }
 
-fn check_case(c: &Case, origin: &str, model: &mut Model, report: &mut Report) {
+fn findings(report: &Report) -> usize {
+    report.disagreements.len() + report.oracle_violations.len()
+}
+
+fn check_case(c: &Case, origin: &str, model: &mut Model, report: &mut Report, out_path: &str) {
     let out = run_impl(c);
     report.impl_runs += 1;
     let line = encode(c, &out.executed);
-    let nontrivial = out.conflicts > 0;
+    let nontrivial = out.conflicts > 0 || out.faults > 0;
     report.case(if nontrivial { Some(&line) } else { None });
     report.bump(&format!("origin.{}", origin));
     report.bump(&format!("conflicts.{}", out.conflicts.min(4)));
+    report.bump(&format!("faults.{}", out.faults.min(4)));
     report.bump(&format!("clients.{}", c.progs.len()));
-    if out.line.contains("stale.") {
-        report.bump("result.stale");
+    if c.progs.iter().flatten().any(|o| o.gf != o.expected) {
+        report.bump("record.generation_field_differs_from_expected");
     }
-    if out.line.contains("notfound") {
-        report.bump("result.notfound");
-    }
-    if out.line.contains("Pc-") {
-        report.bump("step.create_conflict");
-    }
-    if out.line.contains("Pu-") {
-        report.bump("step.update_conflict");
+    for (tag, key) in [("stale.", "result.stale"), ("notfound", "result.notfound"), ("fault", "result.transport_error"), ("Pc-", "step.create_conflict"), ("Pu-", "step.update_conflict"), ("!", "step.put_applied_but_error"), ("x", "step.request_failed_before_effect")] {
+        if out.line.contains(tag) {
+            report.bump(key);
+        }
     }
     let (differs, model_out) = model.differs(&line, &out.line);
     report.sample(json!({"case": line, "impl": out.line, "model": model_out}));
+    let mk = |sched: &[(usize, Action)]| Case { init: c.init.clone(), progs: c.progs.clone(), sched: sched.to_vec() };
     if differs {
-        let shrunk = ddmin(&c.sched, &mut |cand: &[usize]| {
-            let cc = Case { init: c.init.clone(), progs: c.progs.clone(), sched: cand.to_vec() };
+        let shrunk = ddmin_capped(&c.sched, SHRINK_BUDGET, &mut |cand: &[(usize, Action)]| {
+            let cc = mk(cand);
             let o = run_impl(&cc);
             model.differs(&encode(&cc, &o.executed), &o.line).0
         });
-        let cc = Case { init: c.init.clone(), progs: c.progs.clone(), sched: shrunk };
+        let cc = mk(&shrunk);
         let o = run_impl(&cc);
         let sl = encode(&cc, &o.executed);
         let sm = model.ask(&sl);
         report.disagreement(json!({
-            "correspondence": "CAS machine instance Model/Shard.v (shard_step / local_update) vs ObjectStoreMetadataClient / LocalMetadataClient::update_shard_metadata",
+            "correspondence": "CAS machine instance Model/Shard.v (shard_step / shard_fstep / local_update) vs ObjectStoreMetadataClient / LocalMetadataClient::update_shard_metadata",
             "case": line, "impl": out.line, "model": model_out,
             "shrunk": sl, "shrunk_impl": o.line, "shrunk_model": sm,
             "oracle_failed": !out.bad.is_empty() || !o.bad.is_empty(),
         }));
+        report.write(out_path);
     }
     if !out.bad.is_empty() {
-        let shrunk = ddmin(&c.sched, &mut |cand: &[usize]| {
-            let cc = Case { init: c.init.clone(), progs: c.progs.clone(), sched: cand.to_vec() };
-            !run_impl(&cc).bad.is_empty()
-        });
-        let cc = Case { init: c.init.clone(), progs: c.progs.clone(), sched: shrunk };
+        let shrunk = ddmin_capped(&c.sched, SHRINK_BUDGET, &mut |cand: &[(usize, Action)]| !run_impl(&mk(cand)).bad.is_empty());
+        let cc = mk(&shrunk);
         let o = run_impl(&cc);
         let (what, cl) = if o.bad.is_empty() { (out.bad.join("; "), line.clone()) } else { (o.bad.join("; "), encode(&cc, &o.executed)) };
         report.oracle_violation("", &what, json!({"case": cl, "original": line}));
+        report.write(out_path);
     }
 }
 
-fn check_router(ops: &[String], model: &mut Model, report: &mut Report) {
+fn check_router(ops: &[String], model: &mut Model, report: &mut Report, out_path: &str) {
     let line = format!("R|{}", ops.join(";"));
     let (out, bad) = run_router(ops);
     report.impl_runs += 1;
@@ -649,7 +828,7 @@ fn check_router(ops: &[String], model: &mut Model, report: &mut Report) {
     report.bump("origin.router");
     let (differs, model_out) = model.differs(&line, &out);
     if differs {
-        let shrunk = ddmin(ops, &mut |cand: &[String]| {
+        let shrunk = ddmin_capped(ops, SHRINK_BUDGET, &mut |cand: &[String]| {
             let (o, _) = run_router(cand);
             model.differs(&format!("R|{}", cand.join(";")), &o).0
         });
@@ -659,9 +838,11 @@ fn check_router(ops: &[String], model: &mut Model, report: &mut Report) {
             "case": line, "impl": out, "model": model_out, "shrunk": sl,
             "oracle_failed": !bad.is_empty(),
         }));
+        report.write(out_path);
     }
     if !bad.is_empty() {
         report.oracle_violation("", &bad.join("; "), json!({"case": line}));
+        report.write(out_path);
     }
 }
 
@@ -690,26 +871,51 @@ fn main() {
         std::process::exit(if out.bad.is_empty() && (model.is_null() || out.line == m) { 0 } else { 1 });
     }
 
+    let out_path = args.out.clone();
     let mut rng = Rng::new(args.seed);
+    let mut cases: Vec<(&str, Case)> = Vec::new();
     for c in corpus() {
-        check_case(&c, "corpus", &mut model, &mut report);
+        cases.push(("corpus", c));
     }
-    for c in exhaustive_cases() {
-        check_case(&c, "exhaustive_2x1", &mut model, &mut report);
+    for c in exhaustive_cases(false) {
+        cases.push(("exhaustive_2x1", c));
+    }
+    for c in exhaustive_cases(true) {
+        // quick: a seeded quarter of the one-fault sweep; thorough: all of it
+        if args.thorough() || rng.chance(1, 4) {
+            cases.push(("exhaustive_2x1_one_fault", c));
+        }
     }
     let n_random = if args.thorough() { 60_000 } else { 4000 };
-    for _ in 0..n_random {
+    for i in 0..n_random {
         let mut r = rng.fork();
-        let c = gen_case(&mut r, &mut report);
-        check_case(&c, "random", &mut model, &mut report);
+        let faulty = i % 3 == 2;
+        let c = gen_case(&mut r, &mut report, faulty);
+        cases.push((if faulty { "random_faults" } else { "random" }, c));
+    }
+    let mut stopped = false;
+    for (origin, c) in &cases {
+        check_case(c, origin, &mut model, &mut report, &out_path);
+        if findings(&report) >= MAX_FINDINGS {
+            stopped = true;
+            break;
+        }
     }
     let n_router = if args.thorough() { 20_000 } else { 2000 };
     for _ in 0..n_router {
+        if findings(&report) >= MAX_FINDINGS {
+            stopped = true;
+            break;
+        }
         let mut r = rng.fork();
         let ops = gen_router(&mut r);
-        check_router(&ops, &mut model, &mut report);
+        check_router(&ops, &mut model, &mut report, &out_path);
+    }
+    if stopped {
+        report.notes.push(format!("stopped after {} findings", findings(&report)));
     }
     report.notes.push(format!("model calls: {}", model.calls));
-    report.notes.push("exhaustive part: all 64 schedule prefixes x 9 expected-generation pairs x {absent, generation 1} for 2 clients x 1 update".into());
-    report.write(&args.out);
+    report.notes.push("exhaustive part: all 64 schedule prefixes x 9 expected-generation pairs x {absent, generation 1} for 2 clients x 1 update; one-fault sweep: every position x {fail-before, fail-after} on the same-base races (quick: a seeded quarter)".into());
+    report.notes.push("fault steps are outside the theorems of Properties/C13.v (CasProto has no fault labels): there the model side is Model/CasFault.v (harness-only copy of the machine) and the oracle judges the implementation directly; an update returning a transport error is treated as indeterminate (may have been applied by its own FailAfter PUT)".into());
+    report.write(&out_path);
 }
